@@ -1,6 +1,7 @@
 package main
 
 import (
+	"os"
 	"reflect"
 	"encoding/hex"
 	"fmt"
@@ -396,7 +397,14 @@ func init() {
 			ls.other = true
 			return nil
 		},
-		vrt + "Note": func(m *Machine, a []Val) Val { return nil },
+		vrt + "Note": func(m *Machine, a []Val) Val {
+			if os.Getenv("GOSYM_NOTES") != "" {
+				if st, ok := a[0].(Str); ok {
+					fmt.Fprintf(os.Stderr, "NOTE: %q %s\n", st.C, st.S)
+				}
+			}
+			return nil
+		},
 		vrt + "CheckAlloc": func(m *Machine, a []Val) Val { return nil },
 		vrt + "MaxAlloc": func(m *Machine, a []Val) Val {
 			r := CI(64, 0)
